@@ -12,7 +12,8 @@
 //!   qs n=<node> key=<name> f=<j|id>
 //!   qe n=<node> key=<name> f=<j> child=<m>
 //!   qg n=<node> key=<name> fn=<count|min|max> f=<j>      aggregate (grouped by the scalar selections of the node)
-//!   qf n=<node> name=<name> sel=<0|1> f=<j> op=<eq|ne|lt|le|gt|ge> v=<Val> [var=1]
+//!   qf n=<node> name=<name> sel=<0|1> f=<j> op=<eq|ne|lt|le|gt|ge> v=<Val> [var=1] [ref=1]
+//!        (ref=1: `= null` / `!= null` on a reference field; sel=1 with an aggregate alias: a having-filter)
 //!   qo n=<node> name=<name> sel=<0|1> f=<j> dir=<asc|desc>
 //!   ql n=<node> first=<k> skip=<k>
 //!   qa n=<node> kind=<after|before> v=<Val>|<Val>…
